@@ -1336,7 +1336,8 @@ where
                         )
                         .await?;
 
-                        if !server.in_transaction() {
+                        // A COPY that has only started is counted, and the server released, when it ends.
+                        if !server.in_transaction() && !server.in_copy_mode() {
                             // Report transaction executed statistics.
                             self.stats.transaction();
                             server
@@ -1605,7 +1606,8 @@ where
 
                         self.buffer.clear();
 
-                        if !server.in_transaction() {
+                        // A COPY that has only started is counted, and the server released, when it ends.
+                        if !server.in_transaction() && !server.in_copy_mode() {
                             self.stats.transaction();
                             server
                                 .stats()
